@@ -4,6 +4,49 @@ import rt
 from common import Check, NCPU
 
 
+def api_leg(chk, tier, seed):
+    """end-to-end: bridge methods writing scripted chunk lists, called through the generated C API (diplomat_buffer_write_* and
+    diplomat_simple_write over exactly-sized heap buffers, incl. too small ones) and the C++ API (std::string returns), under ASan."""
+    import api
+    from common import pmap
+    thorough = tier == "thorough"
+    n = 160 if thorough else 16
+    prof = dict(write_prob=0.95, max_params=3, callbacks=False)
+    stats = {"programs_c": 0, "programs_cpp": 0, "write_calls": 0, "fixed_buffer_calls": 0, "truncated_fixed_buffer_calls": 0}
+
+    def one(job):
+        lang, i = job
+        if lang == "c":
+            return lang, api.run_c_program(seed + 12000, i, "c12c", profile=prof, ncalls=45)
+        return lang, api.run_cpp_program(seed + 12000, i, "c12cpp", profile=prof, ncalls=45, stds=("c++17",))
+    for lang, r in pmap(one, [(l, i) for l in ("c", "cpp") for i in range(n)]):
+        if r["status"] == "skip":
+            chk.inconc("e2e %s p%d skipped at %s" % (lang, r["idx"], r["stage"]))
+            continue
+        if r["status"] == "inconclusive":
+            chk.inconc("e2e %s p%d: %s" % (lang, r["idx"], r.get("detail")))
+            continue
+        stats["programs_" + lang] += 1
+        for st in r["script"].steps:
+            if st["kind"] == "call" and not st.get("rejected"):
+                for pn, pt in st["m"].params:
+                    if pt == ("write",):
+                        stats["write_calls"] += 1
+                        w = st["args"][pn]
+                        if w["mode"] == "fixed":
+                            stats["fixed_buffer_calls"] += 1
+                            if sum(len(c.encode()) for c in w["chunks"]) > w["size"] - 1:
+                                stats["truncated_fixed_buffer_calls"] += 1
+        if r["status"] == "violation":
+            d = r.get("diff")
+            # only write-related disagreements and memory reports belong to C12; other value mismatches are C01/C02's
+            text = " ".join(str(x) for x in (d or ())) + " ".join(r.get("reports") or [])
+            if d is None or "WR " in text or '"' in (d[1] if d else "") or r.get("reports"):
+                chk.violation("e2e_%s_p%d" % (lang, r["idx"]), "end-to-end %s p%d: %s" % (lang, r["idx"], ("event %d expected `%s` observed `%s`" % d) if d else str(r.get("reports") or r.get("detail"))[:300]),
+                              api.witness(r))
+    return stats
+
+
 def main(tier, seed):
     chk = Check("C12", tier, seed, "fault_enumeration")
     thorough = tier == "thorough"
@@ -27,7 +70,8 @@ def main(tier, seed):
              ("miri", ["c12-rand", seed + 4, 60 if thorough else 15, "exact"])]
     results = rt.run_all(jobs)
     total = rt.judge(chk, results, "C12")
-    chk.evaluations = total.get("write_ops", 0)
+    api_stats = api_leg(chk, tier, seed)
+    chk.evaluations = total.get("write_ops", 0) + api_stats["write_calls"]
     dbg = [r for r in results if r.mode == "debug" and "c12-exh" in r.args]
     chk.distinct = sum(r.stats.get("runs", 0) for r in dbg)
     chk.rule = ("fault enumeration: every chunk sequence of <= %d chunks over {\"\", a, é(2B), €(3B), 😀(4B), 17-byte} x every consumed "
@@ -37,7 +81,7 @@ def main(tier, seed):
                 "(sequence, capacity, outcome-pattern) runs of the debug canary sweep; other modes repeat the sweep under ASan "
                 "(exact-size buffers), valgrind, Miri and in release." % k)
     chk.exhaustive = True
-    chk.extra = {"stats": total, "modes": sorted({r.mode for r in results}), "processes": len(results),
+    chk.extra = {"end_to_end": api_stats, "stats": total, "modes": sorted({r.mode for r in results}), "processes": len(results),
                  "max_chunks": k, "sanitizer_reports": sum(len(r.sanitizer_reports()) for r in results),
                  "distinct_grow_patterns": max([r.stats.get("distinct_grow_patterns", 0) for r in results] or [0])}
     chk.sample({"chunks": ["€", "0123456789abcdefg", "a"], "cap0": 2, "grow_outcomes": ["exact", "fail"],
